@@ -396,7 +396,8 @@ def loop_inv(c, st, v):
             ('ct and the list stay valid', z3.And(c.valid(ct, 104), c.valid(c['fields'], 40))),
             ('previous points to a link slot', c.valid(v['previous'], 8)),
             ('the name dict exists', c.valid(v['interned_fields'], 48)),
-            ('0 <= i', v['i'] >= 0)]
+            ('0 <= i', v['i'] >= 0),
+            ('the module global ffi.error is not touched', c.global_value(st, 'FFIError') == c.global_value(c.old, 'FFIError'))]
 
 
 LOCALS = ['sflags', 'pack', 'is_union', 'bitoffset', 'byteoffset', 'alignment', 'byteoffsetmax', 'previous',
@@ -426,8 +427,9 @@ class Member:
         self.is_aggr = (self.flags & (CT_STRUCT | CT_UNION)) != 0
         self.flexible = z3.And((self.flags & CT_ARRAY) != 0, self.size < 0)
 
-    def in_class(self, v):
-        """the member is one the property speaks about (C01's class), bounded by 2^55 bytes"""
+    def in_class(self, v, forced=False):
+        """the member is one the property speaks about (C01's class), bounded by 2^55 bytes; forced=True: the API-mode
+        variant -- an ordinary member whose offset was measured by the C compiler and is handed in (C12)"""
         c, st, ft = self.c, self.st, self.ftype
         packed = (v['sflags'] & SF_PACKED) != 0
         intlike = (self.flags & (CT_PRIMITIVE_SIGNED | CT_PRIMITIVE_UNSIGNED | CT_PRIMITIVE_CHAR)) != 0
@@ -448,7 +450,8 @@ class Member:
             z3.Implies(self.is_bf, z3.And(intlike, s64(self.bits) <= self.size * 8, self.size <= 8,
                                           s64(self.align32) == self.size,      # integer types are naturally aligned here (C06)
                                           z3.Implies(self.bits == 0, z3.Not(self.named)), z3.Not(packed))),
-            self.off == BV(-1, 64),                        # no forced offsets in a declaration without '...'
+            (z3.And(self.off >= 0, self.off < BOUND, z3.Not(self.is_bf), z3.Not(self.flexible)) if forced
+             else self.off == BV(-1, 64)),                 # no forced offsets in an ABI-mode declaration
             ulen(self.name) >= 0)
 
     def spec(self, v):
@@ -463,6 +466,7 @@ class FieldLoop(Contract):
     name = 'b_complete_struct_or_union_lock_held#field-loop'
     function = 'b_complete_struct_or_union_lock_held'
     loop_ordinal = 0
+    forced = False
 
     def _loop1_inv(self, c, st):
         # nested loop over the members of an anonymous struct/union: the layout state is not touched
@@ -498,7 +502,7 @@ class FieldLoop(Contract):
             ('i < nb_fields, the list has nb_fields items', z3.And(v['i'] < v['nb_fields'], v['nb_fields'] < BV(1 << 40, 64),
                                                                    c.valid(m.slot, 8))),
             ('the aggregate so far is smaller than 2^55 bytes', z3.And(v['byteoffset'] < BOUND, v['byteoffsetmax'] < BOUND)),
-            ('the member belongs to the class of the property', m.in_class(v)),
+            ('the member belongs to the class of the property', m.in_class(v, self.forced)),
             ('the aggregate is a struct or union being completed',
              z3.And((F(c, st, c['ct'], 'ct_flags') & (CT_STRUCT | CT_UNION)) != 0)),
             ('CField_Type is an ordinary small type',
@@ -533,7 +537,7 @@ class FieldLoop(Contract):
         s_eff = z3.If(m.size >= 0, m.size, BV(0, 64))
         whole = L.total(sp['maxend'], sp['align'])
         return [(lab + ' (invariant preserved)', g_) for lab, g_ in inv1[:8]] + [
-            ('previous still points to a link slot', inv1[8][1]),
+            ('previous still points to a link slot', inv1[8][1]), inv1[11],
         ] + [
             ('%s: %s afterwards = ABI step' % (kind, what), z3.Implies(case, got == sp[key]))
             for kind, case in (('ordinary member', z3.Not(m.is_bf)), ('T :0', z3.And(m.is_bf, m.bits == 0)),
@@ -595,6 +599,59 @@ class VarFlagLoop(FieldLoop):
 
 
 R.add(VarFlagLoop)
+
+
+class CheckedFieldLoop(FieldLoop):
+    """the same iteration in API mode (C12): the member's offset measured by the C compiler is handed in.  A struct
+    declared without '...' (SF_STD_FIELD_POS) raises ffi.error when the offset computed from the cdef differs; a
+    struct declared with '...' adopts the compiler's offset silently"""
+    name = 'b_complete_struct_or_union_lock_held#checked-field'
+    forced = True
+
+    def pre(self, c):
+        return FieldLoop.pre(self, c) + [('module initialised: ffi.error exists', c.global_value(c.old, 'FFIError') != 0)]
+
+    def _parts(self, c):
+        st0 = c.old
+        v0 = {k: c[k] for k in LOCALS}
+        m = Member(c, st0, v0)
+        sp = m.spec(v0)
+        std = (v0['sflags'] & SF_STD) != 0
+        return st0, v0, m, sp, std
+
+    def post(self, c):
+        st0, v0, m, sp, std = self._parts(c)
+        st1 = c.new
+        v1 = locals_at(c, st1)
+        newcf = c.raw(st1, v0['previous'], 8)
+        g = lambda f: F(c, st1, newcf, f, CF)
+        anon_aggr = z3.And(z3.Not(m.named), m.is_aggr)
+        end = m.off + m.size
+        mut0, mut1 = F(c, st0, c['ct'], 'ct_flags_mut'), F(c, st1, c['ct'], 'ct_flags_mut')
+        return [(lab + ' (invariant preserved)', g_) for lab, g_ in loop_inv(c, st1, v1)[:9]] + [loop_inv(c, st1, v1)[11]] + [
+            ('a checked struct gets here only if the offset computed from the cdef is the compiler\'s',
+             z3.Implies(std, sp['offset'] == m.off)),
+            ('the field is placed at the offset the compiler measured',
+             z3.Implies(z3.Not(anon_aggr), z3.And(newcf != 0, g('cf_type') == m.ftype, g('cf_offset') == m.off,
+                                                  g('cf_bitsize') == BV(-1, 16)))),
+            ('the layout continues after the member as the compiler placed it',
+             z3.And(v1['byteoffset'] == end, v1['bitoffset'] == 0,
+                    v1['byteoffsetmax'] == z3.If(end > v0['byteoffsetmax'], end, v0['byteoffsetmax']),
+                    s64(v1['alignment']) == sp['align'])),
+            ('a silently adopted different offset marks the type as having a custom layout',
+             z3.Implies(sp['offset'] != m.off, (mut1 & CT_CUSTOM_FIELD_POS) != 0)),
+            ('no error, no out-of-class event', z3.And(st1.err == 0, events(st1) == events(st0))),
+            ('the loop index advances by one', v1['i'] == v0['i'] + 1)]
+
+    def post_goto(self, c, label):
+        st0, v0, m, sp, std = self._parts(c)
+        return [('rejected only for an external failure, or -- in a checked struct -- with ffi.error because the '
+                 'computed offset differs from the compiler\'s',
+                 z3.Or(z3.And(events(c.new) != events(c.old), c.new.err != 0),
+                       z3.And(std, sp['offset'] != m.off, c.new.err == c.global_value(c.old, 'FFIError'))))]
+
+
+R.add(CheckedFieldLoop)
 
 
 class AnonLoop(Contract):
@@ -693,3 +750,46 @@ class b_complete_struct_or_union_lock_held(Contract):
                 ('the type is marked complete', z3.Implies(ok, F(c, st, ct, 'ct_unrealized_struct_or_union') == 0)),
                 ('outside the loop nothing is rejected: failure only after an external failure',
                  z3.Implies(z3.Not(ok), z3.And(c.new.err != 0, events(c.new) != events(c.old))))]
+
+
+class b_complete_checked(b_complete_struct_or_union_lock_held):
+    """the function around its loop in API mode (C12): the total size and alignment measured by the C compiler are
+    handed in; a checked struct (SF_STD_FIELD_POS) raises ffi.error when the numbers computed from the cdef differ,
+    a struct declared with '...' adopts the compiler's numbers silently"""
+    name = 'b_complete_struct_or_union_lock_held#checked'
+    function = 'b_complete_struct_or_union_lock_held'
+
+    def pre(self, c):
+        base = [e for e in b_complete_struct_or_union_lock_held.pre(self, c)
+                if not e[0].startswith(('a cdef() declaration', 'the size and alignment are left'))]
+        sf = c['sflags']
+        return base + [('API-mode flags: at most SF_STD_FIELD_POS and SF_PACKED', (sf & ~BV(SF_STD | SF_PACKED, 32)) == 0),
+                       ('the compiler\'s size and alignment are handed in',
+                        z3.And(c['totalsize'] >= 0, c['totalsize'] < BOUND, c['totalalignment'] >= 0))]
+
+    def post(self, c):
+        st = c.new
+        ct = c['ct']
+        ok = c.result != 0
+        maxend, align = c.local(st, 'byteoffsetmax'), c.local(st, 'alignment')
+        small = z3.And(maxend >= 0, maxend < BOUND)
+        whole = L.total(maxend, s64(align))
+        mine = z3.If(whole == 0, BV(1, 64), whole)
+        std = (c['sflags'] & SF_STD) != 0
+        same = z3.And(mine == c['totalsize'], s64(align) == s64(c['totalalignment']))
+        ffierr = c.global_value(c.old, 'FFIError')
+        nofail = events(c.new) == events(c.old)
+        return [('checked struct whose computed size or alignment differs from the compiler\'s: ffi.error',
+                 z3.Implies(z3.And(small, std, z3.Not(same), nofail), z3.And(z3.Not(ok), c.new.err == ffierr))),
+                ('checked struct with the same numbers: accepted', z3.Implies(z3.And(small, std, same, nofail), ok)),
+                ("struct declared with '...': a different size or alignment is no error; accepted unless the compiler's "
+                 "size cannot hold the fields (then TypeError)",
+                 z3.Implies(z3.And(small, z3.Not(std), nofail),
+                            z3.And(ok == (c['totalsize'] >= maxend),
+                                   z3.Implies(z3.Not(ok), c.new.err == exc(c.ex, 'TypeError'))))),
+                ("accepted: sizeof and alignof are the compiler's numbers",
+                 z3.Implies(ok, z3.And(F(c, st, ct, 'ct_size') == c['totalsize'],
+                                       F(c, st, ct, 'ct_length') == s64(c['totalalignment']))))]
+
+
+R.add(b_complete_checked)
